@@ -106,7 +106,8 @@ def go_build(name, virt_pkg, files, out_dir, tags=("verif",), faketime=False,
 def run(cmd, timeout, cwd=None, env=None, ok_codes=(0,), input=None):
     try:
         p = subprocess.run(cmd, cwd=cwd, env=env, stdout=subprocess.PIPE, stderr=subprocess.STDOUT,
-                           text=True, timeout=timeout, input=input)
+                           timeout=timeout, input=input)
+        p.stdout = p.stdout.decode("utf-8", errors="replace")   # faketime binaries frame their output
     except subprocess.TimeoutExpired as e:
         raise FrameworkError("timeout after %ss: %s" % (timeout, " ".join(cmd)[:200]))
     if p.returncode not in ok_codes:
